@@ -26,7 +26,10 @@ def scenario(rng, i):
         if d not in seen:
             seen.add(d)
             steps.append({"op": "create", "root": d, "fmts": gen.gen_fmts(rng)})
+    skew = i % 4 == 3          # the wall clock jumps around between the runs (set back, other zone): dates are not ascending
     for k in range(rng.choice([1, 2, 3, 4])):
+        if skew:
+            steps.append({"op": "clock", "t": "20%02d-%02d-%02d %02d:%02d:00" % (rng.randrange(19, 30), rng.randrange(1, 13), rng.randrange(1, 28), rng.randrange(0, 24), rng.randrange(0, 60))})
         st = {"op": "create", "fmts": gen.gen_fmts(rng, kmax=5)}
         files = gen.all_files(cur)
         if rng.random() < 0.25:
@@ -48,7 +51,7 @@ def scenario(rng, i):
     return {"tree": tree, "steps": steps}
 
 
-RULE = ("histories with 1-4 root generations (changing formats, failed and new-format entries, -sf generations), nested histories incl. chains three and four levels deep; "
+RULE = ("histories with 1-4 root generations (a quarter of them written under a wall clock that jumps back and forth; changing formats, failed and new-format entries, -sf generations), nested histories incl. chains three and four levels deep; "
         "info on the root and on sub-folders, info -sf for files in the root folder, in sub-folders and inside nested histories (with and without ROOT argument), and on "
         "folders without history; oracle: every history below the folder listed exactly once with exactly its generations 1..n ascending and creation dates taken from the "
         "manifests; info -sf prints exactly one line per recorded digest (generation, format, digest, action) of the nearest enclosing history; exit 30 without history. "
